@@ -51,6 +51,10 @@ def gen_case(rng, routine):
     if routine == 'gni' and io['stop_method'] != 'fixed':
         io['max_iters'] = 1000
     c = {'kind': routine, 'family': kind, 'x': x, 'imf_opts': io, 'envelope_opts': eo, 'extrema_opts': gens.ext_opts(rng)}
+    if routine in ('gni', 'sift') and rng.random() < .12:
+        # raw counts: small non-negative integers (the deepest troughs are exactly 0), stored in an unsigned type
+        v = np.round((x - x.min()) / max(np.ptp(x), 1e-12) * float(gens.pick(rng, [5, 8, 40, 200])))
+        c['x'], c['uint'], c['family'] = v, gens.pick(rng, ['uint8', 'uint16', 'uint32', 'uint64']), kind + '+counts'
     ks = rng.integers(-8, 9, 2)
     c['pow2'] = [float(np.ldexp(1.0, int(k)) * (1 if (routine == 'mask' or rng.random() < .5) else -1)) for k in ks]
     if routine != 'mask' and -1.0 not in c['pow2'] and rng.random() < .3:
@@ -63,6 +67,14 @@ def gen_case(rng, routine):
                      'max_imfs': int(rng.integers(1, 5)),
                      'nphases': int(gens.pick(rng, [1, 2, 4]))}
     return c
+
+
+def raw_counts(ctx, case, x):
+    """The recording as the caller stores it: for cases marked `uint` the (non-negative, integer-valued) samples in an unsigned type."""
+    if case.get('uint'):
+        ctx.count('recordings_stored_as_unsigned_counts')
+        return x.astype(case['uint'])
+    return x
 
 
 def _margins(S, x, io, eo, xo, single=False):
@@ -98,7 +110,7 @@ def check_gni(ctx, case, wd=60):
             return 'raise'
     try:
         with watchdog(wd):
-            base = run(x)
+            base = run(raw_counts(ctx, case, x))      # (the recording itself may be stored as unsigned counts; c*x is a float array)
             g, mout, mk = _margins(S, x, io, eo, xo, single=True)
             ctx.case(dig, not (mout == 'noext' and mk == 1))
             for c in case['pow2']:
@@ -158,7 +170,7 @@ def check_sift(ctx, case):
             return 'raise'
     try:
         with watchdog(90):
-            base = run(x, thr)
+            base = run(raw_counts(ctx, case, x), thr)
             if isinstance(base, str):
                 ctx.case(dig, False)
                 ctx.count('base_raised')
